@@ -362,7 +362,12 @@ pub fn run_c02r(ctx: &mut Ctx, from: u64, to: u64) {
             rng.urange(1, 60)
         };
         let kind = rng.below(4);
-        let chars = c02_text(kind, n, &mut rng);
+        let mut chars = c02_text(kind, n, &mut rng);
+        if rng.chance(1, 40) {
+            // a text that starts with U+FEFF (an ordinary character of the text as far as the sentence is concerned)
+            chars[0] = '\u{feff}';
+            ctx.count("texts_starting_with_u_feff", 1);
+        }
         let dist: [u32; 3] = *rng.pick(&[[10, 10, 2], [10, 10, 10], [10, 10, 30], [20, 1, 3], [6, 1, 6], [1, 10, 5]]);
         let labels: Vec<u8> = (0..n - 1).map(|_| rng.weighted(&dist) as u8).collect();
         let with_tags = rng.chance(1, 2);
@@ -669,9 +674,36 @@ fn special_states_round_trip(ctx: &mut Ctx, prop: &str, k: u64, partial: bool) {
         s.update_raw("abcdefgh ij".to_string()).unwrap();
         observe(&s, false)
     });
-    ctx.eval(5);
-    ctx.count("special_history_states_round_tripped", 5);
+    let r6 = guard(|| {
+        // (f) tags filled in by a predictor whose tag model has a category without any candidate
+        ROUTE_EMPTY_CATEGORY.with(|p| {
+            let mut s = vaporetto::Sentence::from_raw("abc d").unwrap();
+            p.predict(&mut s);
+            for (i, b) in s.boundaries_mut().iter_mut().enumerate() {
+                *b = boundary_of(u8::from(i == 1 || i == 2));
+            }
+            #[cfg(feature = "tag-prediction")]
+            s.fill_tags();
+            observe(&s, false)
+        })
+    });
+    ctx.eval(6);
+    ctx.count("special_history_states_round_tripped", 6);
     let mut states = vec![];
+    match r6 {
+        Ok(o) => {
+            #[cfg(feature = "tag-prediction")]
+            if o.tags.iter().any(|t| t.as_deref() == Some("")) || !o.tags.iter().any(|t| t.as_deref() == Some("Z")) {
+                ctx.violation(&format!("{prop}:tags_filled_for_category_without_candidates"), o.to_json());
+                return;
+            }
+            states.push(("after_fill_tags_with_empty_tag_category", o));
+        }
+        Err(p) => {
+            ctx.violation(&format!("{prop}:writer_panicked_after_fill_tags_with_empty_tag_category:{}", panic_site(&p)), J::obj(vec![("panic", J::s(&p))]));
+            return;
+        }
+    }
     match r5 {
         Ok(o) => {
             if o.n_tags != 0 || !o.tags.is_empty() || o.text != "abcdefgh ij" {
@@ -768,6 +800,21 @@ thread_local! {
         };
         // (builds without the tag-prediction feature cannot request tag prediction)
         new_predictor(&m, cfg!(feature = "tag-prediction")).expect("tag-less predictor with tag prediction")
+    };
+}
+
+thread_local! {
+    /// token "c": first category without candidates, second category with the single candidate "Z"
+    static ROUTE_EMPTY_CATEGORY: vaporetto::Predictor = {
+        let m = vgen::mirror::ModelData {
+            char_ngram_model: vec![vgen::mirror::NgramData { ngram: "b".into(), weights: vec![3, -3] }],
+            bias: 1,
+            char_window_size: 1,
+            type_window_size: 1,
+            tag_models: vec![vgen::mirror::TagModel { token: "c".into(), tags: vec![vec![], vec!["Z".into()]], char_ngram_model: vec![], type_ngram_model: vec![], bias: vec![] }],
+            ..Default::default()
+        };
+        new_predictor(&m, cfg!(feature = "tag-prediction")).expect("predictor with an empty tag category")
     };
 }
 
